@@ -351,6 +351,21 @@ class Driver:
             other["sections"] = [".decoy"]
             ctx.event("decoy_rules_with_other_range_and_sections")
         dp = self.ws.write("decoy.yaml", real.dump_rule({"config": other, "pattern": [{"nop": []}, "ret"]}))
+        # the compile API the same way: the rule object is made, the decoy rule object is made, then the first one produces its regex
+        try:
+            y1 = real.y2r.Yaml2Regex(self.ws.path("rule.yaml"), macros_from_terminal=self.macros)
+            real.y2r.Yaml2Regex(dp, macros_from_terminal=self.macros)
+            rx = y1.produce_regex()
+            why_rx = None if rx == o.regex else f"the rule object made before a rule with config {other} was loaded produces {rx[:200]!r}; made and compiled at once {str(o.regex)[:200]!r}"
+        except Exception as e:  # noqa: BLE001
+            why_rx = f"produce_regex() after another rule was loaded raised {type(e).__name__}: {e}"
+        ctx.ran()
+        ctx.event("regex_produced_after_a_rule_with_other_flags_was_loaded")
+        if why_rx:
+            c = dsl.case_doc(text, prep, desc + " / decoy rule loaded before produce_regex")
+            c["decoy"] = {"config": other, "search": "all", "compile": True}
+            ctx.disagreement(c, why_rx)
+            return
         search = ctx.rng.choice(["all", "first"])
         b1 = real.build(self.ws.path("rule.yaml"), prep.path, ret="list", search=search, macros=self.macros)
         b2 = real.build(dp, prep.path, ret="bool", macros=self.macros)
@@ -434,6 +449,12 @@ def replay_dsl(ctx, case: dict, quirks=(), classify=None):
     if case.get("decoy") and o.status == "ok":
         dc = case["decoy"]
         dp = ws.write("decoy.yaml", real.dump_rule({"config": dc["config"], "pattern": [{"nop": []}, "ret"]}))
+        if dc.get("compile"):
+            y1 = real.y2r.Yaml2Regex(ws.path("rule.yaml"))
+            real.y2r.Yaml2Regex(dp)
+            rx = y1.produce_regex()
+            if rx != o.regex:
+                ctx.disagreement(case, f"rule object made, a rule with config {dc['config']} loaded, then produce_regex(): {rx[:200]!r}; at once {str(o.regex)[:200]!r}")
         b1 = real.build(ws.path("rule.yaml"), prep.path, ret="list", search=dc["search"])
         b2 = real.build(dp, prep.path, ret="bool")
         r1 = real.run(b1)
